@@ -147,6 +147,24 @@ let handler r =
                List.iter (fun c -> match calls_run fops Float.hypot [c] with
                                    | Ok [a] -> put_answer a | _ -> put_w "FRESH_EXIT") calls;
                Ok ())
+  | "rotchain" -> let dim = integer r in let n = integer r in
+      (* P = Identity_Matrix(dim); P = P * Rotation_Matrix(alpha_k, dim, axis_k); sum += alpha_k;  then R(sum) about the first axis *)
+      if dim <> 2 && dim <> 3 then put_w "MODELERR bad_dim" else begin
+        let fs = List.init n (fun _ -> let a = num r in let ax = list r in (a, ax)) in
+        out_res (let* p = rot_chain fops (z_of_int dim) fs in
+                 let s = angle_sum fops (List.map fst fs) in
+                 match fs with
+                 | [] -> Ok (put_mat p; put_f s)
+                 | (_, ax) :: _ -> let* rs = rotation_matrix fops s (z_of_int dim) ax in Ok (put_mat p; put_f s; put_mat rs))
+      end
+  | "rotangle" -> let alpha = num r in
+      (* the library's own Angle between v and R v *)
+      out_res (let* axis = rd_vec3 r in let* v = rd_vec3 r in
+               let* m = rotation_matrix fops alpha three axis in
+               let w = mvec fops m v in
+               let* a1 = angle fops v w in
+               let* a2 = angle fops w v in
+               Ok (put_fl w; put_f a1; put_f a2))
   | "angle" ->
       out_res (let* a = rd_vec r in let* b = rd_vec r in let* x = angle fops a b in Ok (put_f x))
   | "cross" ->
